@@ -69,7 +69,12 @@ fn v3_loop<'a>(
         r is Err ==> final(violations)@ == old(violations)@, // [V3.post.err_leaves_report]
 //@tail
     proof {
-        if let Some(i) = reported {
+        if violations@ != old(violations)@ {
+            let (i, v) = choose|i: int, v: Violation| first_failing(re, lines, i)
+                && violations@.dom() == old(violations)@.dom().insert(*file_path)
+                && violations@[*file_path]@ == map_get_or_empty(old(violations)@, *file_path).push(v)
+                && #[trigger] trimmed_range_ok(v, block_with_context.block, lines[i], i)
+                && v.code@ == "line-pattern"@;
             assert(first_failing(regex::compile_spec(pattern@).unwrap(), lines_of(content_of(block_with_context.block, file_blocks.file_content@)), i));
         }
     }
@@ -78,9 +83,8 @@ fn v3_loop<'a>(
 //@closure rule=E12 find=<<|e|>> params=<<|e: regex::Error|>> ret=<<e2: anyhow::Error>>
 //@forlines var=ls style=while
         invariant_except_break
-            reported is None,
             violations@ == old(violations)@,
-            forall|j: int| 0 <= j < verif_i ==> !fails(re, lines[j]), // [V3.inv.no_failure_so_far]
+            forall|j: int| 0 <= j < verif_i ==> !#[trigger] fails(re, lines[j]), // [V3.inv.no_failure_so_far]
         invariant
             verif_i <= ls@.len(),
             block_wf(block_with_context.block),
@@ -90,24 +94,28 @@ fn v3_loop<'a>(
             ls@.len() <= isize::MAX,
             forall|i: int| 0 <= i < ls@.len() ==> (#[trigger] ls@[i]).0 == i && ls@[i].1@ == lines[i],
         ensures
-            reported is None ==> violations@ == old(violations)@ && (forall|j: int| 0 <= j < lines.len() ==> !fails(re, lines[j])),
-            reported matches Some(i) ==> first_failing(re, lines, i) && exists|v: Violation|
-                   violations@.dom() == old(violations)@.dom().insert(*file_path)
+            violations@ == old(violations)@ ==> (forall|j: int| 0 <= j < lines.len() ==> !#[trigger] fails(re, lines[j])),
+            violations@ != old(violations)@ ==> exists|i: int, v: Violation| first_failing(re, lines, i) // [V3.inv.break_reports_first_failing]
+                && violations@.dom() == old(violations)@.dom().insert(*file_path)
                 && violations@[*file_path]@ == map_get_or_empty(old(violations)@, *file_path).push(v)
-                && trimmed_range_ok(v, block_with_context.block, lines[i], i)
+                && #[trigger] trimmed_range_ok(v, block_with_context.block, lines[i], i)
                 && v.code@ == "line-pattern"@,
         decreases ls@.len() - verif_i,
 //@edit rule=ghost before=<<let ls = verif_lines_enumerate>>
     let ghost lines = lines_of(content_of(block_with_context.block, file_blocks.file_content@));
-    let ghost mut reported: Option<int> = None;
-//@edit rule=ghost before=<<let trimmed_line = line.trim();>>
+//@edit rule=ghost before=<<let trimmed_line =>> optional=1
                     assert(line_number == verif_i - 1);
-//@edit rule=ghost before=<<let (violation_line_number, character_offset)>>
+//@edit rule=ghost before=<<let (violation_line_number, character_offset)>> optional=1
                         assert(first_failing(regex::compile_spec(pattern@).unwrap(), lines_of(content_of(block_with_context.block, file_blocks.file_content@)), line_number as int));
-//@edit rule=E5 find=<<violations.entry(file_path.clone()).or_insert_with(Vec::new).push(>>
+//@edit rule=E5 find=<<violations.entry(file_path.clone()).or_insert_with(Vec::new).push(>> optional=1
 verif_map_push(violations, file_path.clone(),
-//@edit rule=ghost after=<<line_character_end, )?);>>
-                        proof { reported = Some(line_number as int); }
+//@edit rule=ghost before=<<break;>> optional=1
+                        proof {
+                            let v = violations@[*file_path]@.last();
+                            assert(violations@[*file_path]@.len() == map_get_or_empty(old(violations)@, *file_path).len() + 1);
+                            assert(violations@[*file_path]@ == map_get_or_empty(old(violations)@, *file_path).push(v));
+                            assert(trimmed_range_ok(v, block_with_context.block, lines[line_number as int], line_number as int));
+                        }
 //@edit rule=E9 find=<<$a.as_ptr() as usize - $b.as_ptr() as usize>> count=all optional=1
 verif_offset_in($a, $b)
 //@end
